@@ -780,7 +780,10 @@ _NT = {"P": (0, 0, 0), "OP1": (150, 1450, 350), "O5'": (900, -1150, 400), "C4'":
        "O3'": (3000, 1000, -300)}
 LINKS = {"bond1600": (1600, 0, 0), "bond2390": (2390, 0, 0), "bond2399": (1385, 1385, 1385),
          "gap2401": (1386, 1386, 1386), "gap2410": (2410, 0, 0), "gap2500": (1500, 2000, 0), "gap7000": (7000, 100, -200),
-         "noP": (1600, 0, 0), "noO3": (1600, 0, 0)}
+         "noP": (1600, 0, 0), "noO3": (1600, 0, 0),
+         # exactly on the 2.4 A sphere (integer Pythagorean triples): the statement says "below 2.4 A"; what is
+         # demanded here is only that all readings give the SAME answer
+         "sphere2400a": (0, 0, 2400), "sphere2400b": (1440, 0, 1920), "sphere2400c": (704, 1472, 1760)}
 _PUR = ["A", "G", "DA", "DG"]
 _PYR = ["C", "U", "DC", "DT", "T"]
 
@@ -794,6 +797,10 @@ def _check_nt():
                 raise lib.MachineryError(f"nucleotide template atoms too close: {names[a]} {names[b]}")
     for k, v in LINKS.items():
         d2 = sum(x * x for x in v)
+        if k.startswith("sphere"):
+            if d2 != 2400 ** 2:
+                raise lib.MachineryError("sphere link not on the 2.4 A sphere: " + k)
+            continue
         if k.startswith("bond") != (d2 < 2400 ** 2) and not k.startswith("no"):
             raise lib.MachineryError("link vector does not realise its class: " + k)
         if d2 == 2400 ** 2:
@@ -822,8 +829,10 @@ def build_backbone(rng, links, *, chains=1, icn="?", ocn="?", absent_occ=None, h
             res = {"ch": ch, "num": num, "ic": ic, "rn": rn, "het": 1 if rn in ("PSU", "5MC", "1MA") else 0,
                    "lch": ch + "X" if c else ch, "lnum": lnum, "icn": icn, "ocn": ocn}
             jitter = (rng.randrange(-200, 201), rng.randrange(-200, 201), rng.randrange(-200, 201))
-            mirror = rng.random() < 0.5     # mirrored nucleotide: the sign of chi flips
             link = links[r] if r < len(links) else None
+            mirror = rng.random() < 0.5     # mirrored nucleotide: the sign of chi flips
+            if link is not None and link.startswith("sphere"):
+                mirror = False              # (the mirrored O3' would leave the sphere)
             for name, off in _NT.items():
                 if name == "P" and prev_link == "noP":
                     continue
